@@ -71,7 +71,6 @@ Load == /\ l <= Len(Trace) /\ phase = "idle"
         /\ \E f \in {Facts(Trace[l].raw)} : \E cf \in {CapFacts(Trace[l])} : LoadWith(Trace[l], f, cf)
         /\ UNCHANGED <<l, rej, hits, seen>>
 
-Boundary == {254, 255, 256, 257} \cup 506..513
 Flaws(p) == wflaws \cup (IF p = NoPad /\ wpads # <<>> THEN {"padding-sent-against-policy"} ELSE {})
                    \cup (IF p # NoPad /\ wpads = <<>> THEN {"padding-missing"} ELSE {})
                    \cup (IF p # NoPad /\ wpads # <<>> /\ wpads[1] # p THEN {"wrong-padding-length"} ELSE {})
@@ -82,7 +81,7 @@ Judge == /\ l <= Len(Trace) /\ phase = "assembling"
                 fl == Flaws(p)
                 ev == Trace[l] IN
             /\ rej' = IF fl = {} THEN rej ELSE rej \cup {<<ev.sc, fl, u, wpads>>}
-            /\ hits' = IF ev.kind = "hello" /\ u \in Boundary THEN hits \cup {<<ev.id, u>>} ELSE hits
+            /\ hits' = IF ev.kind = "hello" THEN hits \cup {<<ev.sc, u>>} ELSE hits
             /\ seen' = [padded |-> seen.padded + (IF ev.kind = "hello" /\ wpads # <<>> THEN 1 ELSE 0),
                         unpadded |-> seen.unpadded + (IF ev.kind = "hello" /\ wpads = <<>> THEN 1 ELSE 0),
                         recap |-> seen.recap + (IF ev.kind = "recap" /\ wpads # <<>> THEN 1 ELSE 0),
